@@ -561,6 +561,7 @@ public:
     }
 
     for (unsigned int iteration = 1;; ++iteration) {
+      CRAB_VERIF_TICK("fixpo.increasing", iteration);
       // keep track of how many times the cycle is visited by the fixpoint
       cycle.increment_fixpo_visits();
 
@@ -599,6 +600,7 @@ public:
     CRAB_VERBOSE_IF(1, crab::get_msg_stream() << "Started narrowing phase\n";);
 
     for (unsigned int iteration = 1;; ++iteration) {
+      CRAB_VERIF_TICK("fixpo.decreasing", iteration);
       // Decreasing iteration sequence with narrowing
       compute_post(head, pre);
       for (typename wto_cycle_t::iterator it = cycle.begin(); it != cycle.end();
